@@ -6,6 +6,7 @@ All statements are about the executable model `SB3Verif/Model/Wrappers.lean`, wh
 driver `SB3Verif/Driver/C17.lean` runs against the real wrapper stack on every check.
 -/
 import SB3Verif.Lemmas.Wrappers
+import SB3Verif.Props.C17C01
 
 namespace SB3Verif.C17
 
@@ -292,6 +293,67 @@ theorem fsRunObs_is_wrapper_state (firsts : List (String × Bool)) (bufs : Obs) 
       ((WS.frameStack firsts bufs).reset o).1 = .frameStack firsts (fsReset firsts bufs o) ∧
       ((WS.frameStack firsts bufs).reset o).2 = fsReset firsts bufs o :=
   ⟨rfl, rfl, rfl, rfl⟩
+
+/-! ### End to end: the wrapped VecEnv still satisfies C01's contract (composition with `SB3Verif.VecEnv`)
+
+Thin re-exports of `SB3Verif/Props/C17C01.lean` (definitions `recOf`, `wrappedStep`, `wrappedReset` there), so that the
+axiom audit of this file covers them. -/
+
+/-- **`c01_wrapped_step_contract`**: for C01's base vectorised environment (either implementation, any reachable
+state, any `n`, any sub-environment answers) under ANY stack of wrappers (any order, any states): `done =
+terminated ∨ truncated`, `TimeLimit.truncated = truncated ∧ ¬terminated`, reward passed through; on a continuing
+episode no `terminal_observation` and the observation is the stack's transformation of the sub-environment's; on an
+ending episode `terminal_observation` = the pre-reset stack's transformation of the sub-environment's last
+observation and the returned observation = the stack's `reset` of the first observation of the next episode. -/
+theorem c01_wrapped_step_contract (v : VecEnv.Vec Obs Int) (hwf : v.WF) (sts : List (List WS))
+    (hs : sts.length = v.n) (acts : List Int) (xs : List (VecEnv.StepResp Obs Int))
+    (hv : (VecEnv.Op.step acts xs).valid v.n = true) (i : Nat) (hi : i < v.n) (a : Int)
+    (x : VecEnv.StepResp Obs Int) (ha : acts[i]? = some a) (hx : xs[i]? = some x) :
+    ∃ R, (C17C01.wrappedStep v sts acts xs).2[i]? = some R ∧
+      R.done = (x.raw.terminated || x.raw.truncated) ∧
+      R.info.truncated = (x.raw.truncated && !x.raw.terminated) ∧
+      R.rew = x.raw.rew ∧
+      ((x.raw.terminated || x.raw.truncated) = false →
+        VecEnv.dictGet x.raw.info "terminal_observation" = none →
+          R.info.terminal = none ∧ R.obs = stackObsFn (sts[i]'(hs ▸ hi)) x.raw.obs) ∧
+      ((x.raw.terminated || x.raw.truncated) = true → ∀ z, x.rst = some z →
+        obsSig z.obs = obsSig x.raw.obs → KeysNodup x.raw.obs →
+          R.info.terminal = some (stackObsFn (sts[i]'(hs ▸ hi)) x.raw.obs) ∧
+          R.obs = (stackReset (sts[i]'(hs ▸ hi)) z.obs).2) :=
+  C17C01.wrapped_step_contract v hwf sts hs acts xs hv i hi a x ha hx
+
+/-- `reset()` of the wrapped environment: the stack's `reset` of what sub-environment `i` answered. -/
+theorem c01_wrapped_reset_contract (v : VecEnv.Vec Obs Int) (hwf : v.WF) (sts : List (List WS))
+    (hs : sts.length = v.n) (zs : List (VecEnv.ResetRes Obs)) (hz : zs.length = v.n) (i : Nat) (hi : i < v.n)
+    (z : VecEnv.ResetRes Obs) (hzi : zs[i]? = some z) :
+    (C17C01.wrappedReset v sts zs).2[i]? = some (stackReset (sts[i]'(hs ▸ hi)) z.obs).2 :=
+  C17C01.wrapped_reset_contract v hwf sts hs zs hz i hi z hzi
+
+/-- **`c01_wrapped_framestack_autoreset_window`**: VecFrameStack over C01's base environment: after an automatic
+reset the returned window holds `n - 1` zero frames and the first observation of the new episode — no frame of the
+finished episode — and `terminal_observation` is the stack of the finished episode completed by its last observation,
+whatever history `h` environment `i` had before. -/
+theorem c01_wrapped_framestack_autoreset_window (v : VecEnv.Vec Obs Int) (hwf : v.WF) (sts : List (List WS))
+    (hs : sts.length = v.n) (acts : List Int) (xs : List (VecEnv.StepResp Obs Int))
+    (hv : (VecEnv.Op.step acts xs).valid v.n = true) (i : Nat) (hi : i < v.n) (a : Int)
+    (x : VecEnv.StepResp Obs Int) (ha : acts[i]? = some a) (hx : xs[i]? = some x)
+    (hdone : (x.raw.terminated || x.raw.truncated) = true) (z : VecEnv.ResetRes Obs) (hz : x.rst = some z)
+    (first : Bool) (n : Nat) (shape : List Nat) (hn : 0 < n) (hne : shape ≠ []) (hpos : 0 < prod shape)
+    (h : List FEv) (hh : ∀ e ∈ h, EvOK shape e)
+    (hst : sts[i]'(hs ▸ hi) = [WS.frameStack [("", first)] [("", fsRun first (Arr.zeros (stackedShape n first shape)) h)]])
+    (last next : Arr) (hlast : x.raw.obs = [("", last)]) (hnext : z.obs = [("", next)])
+    (hl : FrameOK shape last) (hnx : FrameOK shape next) :
+    ∃ R, (C17C01.wrappedStep v sts acts xs).2[i]? = some R ∧
+      R.obs = [("", stackOf first n shape [next])] ∧
+      R.info.terminal = some [("", stackOf first n shape (curEpisode [] h ++ [last]))] :=
+  C17C01.wrapped_framestack_autoreset_window v hwf sts hs acts xs hv i hi a x ha hx hdone z hz first n shape hn hne hpos
+    h hh hst last next hlast hnext hl hnx
+
+/-- On a step that ends the episode, any stack returns what its `reset()` would return for the same observation
+(for `VecFrameStack`: zeros and the new frame — nothing of the old episode). -/
+theorem done_obs_is_reset_obs (ws : List WS) (r : Rec) (hd : r.done = true) :
+    (stackStep ws r).2.obs = (stackReset ws r.obs).2 :=
+  Lemmas.Wrappers.stackStep_done_obs ws r hd
 
 /-! ### Non-vacuity -/
 
